@@ -120,11 +120,52 @@ func vC06RunBytes(b []byte) (obs vSx, fl *vC06Fail, tree *vC05Node) {
 	return obs, nil, tree
 }
 
+// a receiver that went through a (possibly rejected) UnmarshalBinary must still marshal to bytes
+// the specification's decoder reads as the receiver's current value
+func vC06RunAfterDecode(kind int, b []byte) (obs vSx, fl *vC06Fail) {
+	var recv Amf0
+	switch kind {
+	case vC05Obj:
+		recv = NewObject()
+	case vC05Ecma:
+		recv = NewEcmaArray()
+	case vC05Strict:
+		recv = NewStrictArray()
+	default:
+		return vL(vZ(-1)), nil
+	}
+	err := recv.UnmarshalBinary(b)
+	dobs := vOk(vI(recv.Size()))
+	if err != nil {
+		dobs = vErr(vC05ErrCode(err))
+	}
+	cur := vC05Dump(recv)
+	lb, merr := recv.MarshalBinary()
+	if merr != nil {
+		return vErr(7), &vC06Fail{"marshal", "", "MarshalBinary after UnmarshalBinary failed: " + merr.Error()}
+	}
+	obs = vOk(dobs, vB(lb), vC05RefObs(lb))
+	key := ""
+	if vC05HasStrictElems(cur) {
+		key = vC06StrictKey
+	}
+	if rn, rest, ok := vC05RefDec(lb); !ok || len(rest) != 0 || !vC05Equal(rn, cur, false) {
+		return obs, &vC06Fail{"lib-to-spec-after-decode", key, fmt.Sprintf("receiver holding %s after UnmarshalBinary(%s) (err %v) marshals to %s, which the reference decoder does not read as that value (ok=%v)", vC05ToSx(cur), vC05Hex(b), err, vC05Hex(lb), ok)}
+	}
+	return obs, nil
+}
+
 func TestVerifC06(t *testing.T) {
 	k := vNewKit(t, "C06")
 	defer k.close()
 	nKnown := 0
 	runCase := func(c vSx) (res vC06Result) {
+		if c.isList() && len(c.l) == 3 && c.l[0].isInt() && c.l[0].i64() == 2 && c.l[1].isInt() && c.l[2].isBytes() {
+			res.obs, res.fl = vC06RunAfterDecode(c.l[1].int(), c.l[2].b)
+			res.nontrivial = len(res.obs.l) > 1 && len(res.obs.l[1].l) > 0 && res.obs.l[1].l[0].i64() == 1
+			res.count("kind", "marshal-after-decode")
+			return res
+		}
 		if !c.isList() || len(c.l) != 2 || !c.l[0].isInt() {
 			return vC06Result{obs: vL(vZ(-1))}
 		}
@@ -233,6 +274,34 @@ func TestVerifC06(t *testing.T) {
 	}
 	n := k.N(3000, 100000)
 	for i := 0; i < n; i++ {
+		if r.chance(1, 12) {
+			// a container encoding (spec layout), usually damaged, decoded into a fresh receiver
+			kind := r.pickInt(vC05Obj, vC05Ecma, vC05Strict, vC05Strict)
+			t := vC05GenTop(r, false, true)
+			for t.kind != kind {
+				t = &vC05Node{kind: kind, props: t.props}
+			}
+			b := vC05RefEncode(t)
+			if kind == vC05Strict {
+				b = vC05KeyedEncode(t)
+			}
+			if r.chance(3, 4) && len(b) > 1 {
+				switch r.intn(3) {
+				case 0:
+					b = b[:r.rng(1, len(b)-1)]
+				case 1:
+					b = append([]byte{}, b...)
+					b[r.rng(1, len(b)-1)] = byte(r.pickInt(4, 7, 11, 12, 0xff))
+				default:
+					if kind != vC05Obj && len(b) >= 5 {
+						b = append([]byte{}, b...)
+						b[4] += byte(r.rng(1, 3))
+					}
+				}
+			}
+			runOne(vL(vZ(2), vI(kind), vB(b)))
+			continue
+		}
 		switch x := r.intn(20); {
 		case x < 11:
 			runOne(vL(vZ(0), vC05ToSx(vC05GenTop(r, r.chance(1, 25), true))))
